@@ -3,7 +3,8 @@
    Properties/C18fl.v.  Statements only. *)
 From Coq Require Import String.
 From Coq Require Import List Arith ZArith Lia.
-From Coq Require Import PrimFloat Uint63.
+From Coq Require Import PrimFloat.
+From Coq Require Uint63.
 Import ListNotations.
 From Ticc Require Import Gen.PyRt Gen.G_solver Model.Viterbi Model.TriIndex Model.Admm Model.InstF
      Proofs.TriIndexP Proofs.FloatFsum Proofs.GenEquivLS Corr.RunAdmm.
